@@ -118,7 +118,8 @@ def classify(vr, maps, image_lines, fnkeys_by_line):
         anyspan = [s for s in spans if s.get('file_name', '').endswith('image.rs')]
         fnk = None
         # the function whose body contains a non-clause span (exit / call site); fall back to primary
-        cand = [s['line_start'] for s in anyspan if s['line_start'] not in maps['linemap']] + [s['line_start'] for s in primary]
+        cand = ([s['line_start'] for s in primary if s['line_start'] not in maps['linemap']]
+                + [s['line_start'] for s in anyspan if s['line_start'] not in maps['linemap']] + [s['line_start'] for s in primary])
         for ln in cand:
             k = fnkeys_by_line(ln)
             if k:
